@@ -421,4 +421,30 @@ def memFormats : List (String × String × Nat) :=
   [("f64", "d", 8), ("f32", "f", 4), ("i64", "q", 8), ("u64", "Q", 8), ("i32", "i", 4), ("u32", "I", 4),
    ("ptr", "i", 4), ("i16", "h", 2), ("u16", "H", 2), ("i8", "b", 1), ("u8", "B", 1)]
 
+/-- `struct.pack(fmt, v)` for an integer format of `size` bytes: little-endian two's complement,
+    `none` = `struct.error` (value out of the format's range) -/
+def structPack (size : Nat) (signed : Bool) (v : Int) : Option (List Nat) :=
+  let lo : Int := if signed then -(2 ^ (8 * size - 1)) else 0
+  let hi : Int := if signed then 2 ^ (8 * size - 1) - 1 else 2 ^ (8 * size) - 1
+  if lo ≤ v ∧ v ≤ hi then some (Spec.IR.toBytesLE size (v % 2 ^ (8 * size)).toNat) else none
+
+/-- `struct.unpack(fmt, bytes)[0]` -/
+def structUnpack (size : Nat) (signed : Bool) (bs : List Nat) : Int :=
+  let n : Int := (Spec.IR.fromBytesLE bs : Nat)
+  if signed && decide (2 ^ (8 * size - 1) ≤ n) then n - 2 ^ (8 * size) else n
+
+/-! ### tables compared with `Gen.IrPyHelpers` (statements for `d = a op b`, `d = op a`, `d = cast a`) -/
+
+def allTys : List Ty :=
+  [.int .i8, .int .i16, .int .i32, .int .i64, .int .u8, .int .u16, .int .u32, .int .u64, .ptr, .f32, .f64]
+
+def binopTable : List (String × String × List String) :=
+  allTys.flatMap fun t => BinOp.all.map fun o => (t.name, o.name, (binopPlan t o).render "d" "a" "b")
+
+def unopTable : List (String × String × List String) :=
+  allTys.flatMap fun t => [UnOp.neg, UnOp.not].map fun o => (t.name, o.name, unopRender t o "d" "a")
+
+def castTable : List (String × List String) :=
+  allTys.map fun t => (t.name, match castRender (castPlan t) "d" "a" with | .ok l => l | .error _ => [])
+
 end Model.IrPy
